@@ -51,7 +51,7 @@ seq_t dtw_warping_paths{{ suffix }}{{ suffix2 }}(seq_t *wps,
     {%- else %}
     // DTWPruned
     idx_t sc = 0;
-    idx_t ec = 0;
+    idx_t ec = settings->psi_2b;  // relaxed cells of the virtual first row are not above max_dist
     idx_t ec_next;
     bool smaller_found;
     {%- endif %}
@@ -164,7 +164,7 @@ seq_t dtw_warping_paths{{ suffix }}{{ suffix2 }}(seq_t *wps,
                 smaller_found = true;
                 ec_next = ci + 1;
             } else {
-                if (!smaller_found)
+                if (!smaller_found && ri >= settings->psi_1b)
                     sc = ci + 1;
                 if (ci >= ec)
                     break;
@@ -234,7 +234,7 @@ seq_t dtw_warping_paths{{ suffix }}{{ suffix2 }}(seq_t *wps,
                 smaller_found = true;
                 ec_next = ci + 1;
             } else {
-                if (!smaller_found)
+                if (!smaller_found && ri >= settings->psi_1b)
                     sc = ci + 1;
                 if (ci >= ec)
                     break;
@@ -304,7 +304,7 @@ seq_t dtw_warping_paths{{ suffix }}{{ suffix2 }}(seq_t *wps,
                 smaller_found = true;
                 ec_next = ci + 1;
             } else {
-                if (!smaller_found)
+                if (!smaller_found && ri >= settings->psi_1b)
                     sc = ci + 1;
                 if (ci >= ec)
                     break;
@@ -384,7 +384,7 @@ seq_t dtw_warping_paths{{ suffix }}{{ suffix2 }}(seq_t *wps,
                 smaller_found = true;
                 ec_next = ci + 1;
             } else {
-                if (!smaller_found)
+                if (!smaller_found && ri >= settings->psi_1b)
                     sc = ci + 1;
                 if (ci >= ec)
                     break;
